@@ -282,10 +282,10 @@ Section Confined.
       + intros; discriminate.
   Qed.
 
-  Lemma check_fd_flags_good : forall s hid hd flags hd' s', Inv s -> inE (hd_host hd) ->
-    check_fd_flags s hid hd flags = (hd', s') -> good s s' /\ hd_host hd' = hd_host hd.
+  Lemma check_fd_flags_good : forall cf s hid hd flags hd' s', Inv s -> inE (hd_host hd) ->
+    check_fd_flags cf s hid hd flags = (hd', s') -> good s s' /\ hd_host hd' = hd_host hd.
   Proof.
-    intros s hid hd flags hd' s' HI Hh H. unfold check_fd_flags in H.
+    intros cf s hid hd flags hd' s' HI Hh H. unfold check_fd_flags in H.
     destruct (hd_flags hd =? flags); [inversion H; subst; split; [apply good_refl; exact HI | reflexivity]|].
     destruct hid as [k|]; inversion H; subst; (split; [|reflexivity]).
     - apply set_handle_good; [exact HI | exact Hh].
@@ -536,8 +536,8 @@ Section Confined.
     - (* read *)
       destruct (get_data cf (c_no_open cf) s handle inode O_RDONLY) as [[[hid hd]|e] s1] eqn:Hgd;
         destruct (get_data_good _ _ _ _ _ _ _ _ HI Hgd) as [G1 Hh]; [|inv4 H; split; [exact G1 | exact I]].
-      destruct (check_fd_flags s1 hid hd flags) as [hd' s2] eqn:Hcf.
-      destruct (check_fd_flags_good _ _ _ _ _ _ (proj1 G1) (Hh _ _ eq_refl) Hcf) as [G2 _].
+      destruct (check_fd_flags cf s1 hid hd flags) as [hd' s2] eqn:Hcf.
+      destruct (check_fd_flags_good _ _ _ _ _ _ _ (proj1 G1) (Hh _ _ eq_refl) Hcf) as [G2 _].
       assert (G : good s s2) by (eapply good_trans; eassumption).
       destruct (negb (acc_r (hd_acc hd'))); [inv4 H; split; [exact G | exact I]|].
       destruct (hd_direct hd' && (0 <? size)); [inv4 H; split; [exact G | exact I]|].
@@ -545,8 +545,8 @@ Section Confined.
     - (* write *)
       destruct (get_data cf (c_no_open cf) s handle inode O_RDWR) as [[[hid hd]|e] s1] eqn:Hgd;
         destruct (get_data_good _ _ _ _ _ _ _ _ HI Hgd) as [G1 Hh]; [|inv4 H; split; [exact G1 | exact I]].
-      destruct (check_fd_flags s1 hid hd flags) as [hd' s2] eqn:Hcf.
-      destruct (check_fd_flags_good _ _ _ _ _ _ (proj1 G1) (Hh _ _ eq_refl) Hcf) as [G2 Hsame].
+      destruct (check_fd_flags cf s1 hid hd flags) as [hd' s2] eqn:Hcf.
+      destruct (check_fd_flags_good _ _ _ _ _ _ _ (proj1 G1) (Hh _ _ eq_refl) Hcf) as [G2 Hsame].
       assert (G : good s s2) by (eapply good_trans; eassumption).
       match type of H with context [with_killpriv ?c s2 ?b] => destruct (with_killpriv c s2 b) as [r s3] eqn:Hw end.
       assert (G3 : good s2 s3).
